@@ -39,6 +39,47 @@ func descKey(d map[string]any) string {
 	return ""
 }
 
+// findRtTripByDesc finds the Trips entry whose identifier transcribes every field of the wire descriptor.
+func findRtTripByDesc(r *gtfs.Realtime, d map[string]any, loc *time.Location) *gtfs.Trip {
+	if loc == nil {
+		loc = time.UTC
+	}
+	for i := range r.Trips {
+		if len(checkTripID(r.Trips[i].ID, d, loc, "")) == 0 {
+			return &r.Trips[i]
+		}
+	}
+	return nil
+}
+
+// tripIDBefore is the documented identifier order written out independently of TripID.Less: id, route,
+// direction, then "no start time" before any start time and by start time, the same for the start date,
+// then the schedule relationship.
+func tripIDBefore(a, b gtfs.TripID) bool {
+	if a.ID != b.ID {
+		return a.ID < b.ID
+	}
+	if a.RouteID != b.RouteID {
+		return a.RouteID < b.RouteID
+	}
+	if a.DirectionID != b.DirectionID {
+		return a.DirectionID < b.DirectionID
+	}
+	if a.HasStartTime != b.HasStartTime {
+		return !a.HasStartTime
+	}
+	if a.HasStartTime && a.StartTime != b.StartTime {
+		return a.StartTime < b.StartTime
+	}
+	if a.HasStartDate != b.HasStartDate {
+		return !a.HasStartDate
+	}
+	if a.HasStartDate && !a.StartDate.Equal(b.StartDate) {
+		return a.StartDate.Before(b.StartDate)
+	}
+	return a.ScheduleRelationship < b.ScheduleRelationship
+}
+
 func findRtTrip(r *gtfs.Realtime, key string) *gtfs.Trip {
 	if key == "" {
 		return nil
@@ -80,7 +121,7 @@ func oracleC07(in map[string]any, r *gtfs.Realtime, canon map[string]any) ([]Vio
 	tags := map[string]bool{}
 	for i := 1; i < len(r.Trips); i++ {
 		a, b := r.Trips[i-1].ID, r.Trips[i].ID
-		if !a.Less(b) {
+		if !tripIDBefore(a, b) {
 			viols = append(viols, Viol{"c07-sorted", fmt.Sprintf("Trips[%d] and Trips[%d] are not in strictly increasing identifier order (%+v, %+v)", i-1, i, a, b)})
 		}
 	}
@@ -111,7 +152,7 @@ func oracleC07(in map[string]any, r *gtfs.Realtime, canon map[string]any) ([]Vio
 	// own entity wins
 	for _, e := range ents {
 		if tu := gm(e, "tripUpdate"); tu != nil {
-			t := findRtTrip(r, descKey(gm(tu, "trip")))
+			t := findRtTripByDesc(r, gm(tu, "trip"), zoneOf(in))
 			if t == nil {
 				viols = append(viols, Viol{"c07-own-missing", "no Trip for the trip update of " + gs(gm(tu, "trip"), "tripId")})
 				continue
